@@ -687,6 +687,10 @@ def mon_groups(h, obs):
                         g = groups[key] = Group(tx.frm, decl)
                         T = tx.timeout
                         g.deadline = b.h + T if 0 < T < MAXU64 - b.h else None
+                    if tx.id in of_child and of_child[tx.id] != key:
+                        # the same child id begun under two different groups (possible on an unordered destination, where the
+                        # index is not checked): which group a listing or a status of this id belongs to is not decidable
+                        ambiguous.add(tx.id)
                     g.begun.add(tx.id)
                     of_child[tx.id] = key
                     if rc.ret == "begin_failure" and not g.failed:
